@@ -300,7 +300,7 @@ def detect_vflags(c):
 # ---------------------------------------------------------------------------------------------------------------
 # reach of the unbounded theorems on the generated cases (the boolean hypotheses of the theorems, evaluated by the
 # extracted definitions themselves)
-REACH_BITS = ('wf_coreb', 'wf_initb', 'wf_histb', 'wf_fastb', 'core_treeb', 'c01_treeb', 'eq_chartb', 'hist_treeb', 'eq_tree_histb', 'c01i_treeb')
+REACH_BITS = ('wf_coreb', 'wf_initb', 'wf_histb', 'wf_fastb', 'core_treeb', 'c01_treeb', 'eq_chartb', 'hist_treeb', 'eq_tree_histb', 'c01i_treeb', 'wf_histpb')
 
 
 def theorem_reach(c, cases, vflags='0000', want=('reach', 'runguard', 'eqguard')):
